@@ -1221,6 +1221,9 @@ struct System {
     rows: Vec<Vec<(usize, f32)>>,
     b: Vec<f32>,
     exact: bool,
+    /// per term: written as `a/2 * v + a/2 * v` (the same parameter twice in
+    /// one equation; halving is exact, so the system is unchanged)
+    split: Vec<Vec<bool>>,
 }
 
 fn gen_system(ch: &mut Chooser) -> System {
@@ -1337,6 +1340,10 @@ fn gen_system(ch: &mut Chooser) -> System {
             xstar.push(if exact { 0.5 } else { ch.float_sym("unused_val", 2.0, 8) });
         }
     }
+    let split: Vec<Vec<bool>> = rows
+        .iter()
+        .map(|r| r.iter().map(|_| ch.odds("split_term", 1, 8)).collect())
+        .collect();
     System {
         n,
         free,
@@ -1344,6 +1351,7 @@ fn gen_system(ch: &mut Chooser) -> System {
         rows,
         b,
         exact,
+        split,
     }
 }
 
@@ -1412,17 +1420,31 @@ pub fn run_c19(st: &Shared, _tier: Tier) -> RunReport {
         sys.rows
             .iter()
             .zip(b)
-            .map(|(r, b)| {
+            .enumerate()
+            .map(|(ri, (r, b))| {
                 let mut acc: Option<Node> = None;
-                for (j, a) in r {
+                let mut late: Vec<Node> = vec![];
+                for (ti, (j, a)) in r.iter().enumerate() {
                     let v = ctx.var(vars[*j]);
-                    let t = ctx.mul(v, *a).unwrap();
+                    let t = if sys.split[ri][ti] {
+                        // the second half is added at the end of the sum
+                        let h = ctx.mul(v, *a * 0.5).unwrap();
+                        let v2 = ctx.var(vars[*j]);
+                        late.push(ctx.mul(*a * 0.5, v2).unwrap());
+                        h
+                    } else {
+                        ctx.mul(v, *a).unwrap()
+                    };
                     acc = Some(match acc {
                         None => t,
                         Some(p) => ctx.add(p, t).unwrap(),
                     });
                 }
-                ctx.sub(acc.unwrap(), *b).unwrap()
+                let mut acc = acc.unwrap();
+                for t in late {
+                    acc = ctx.add(acc, t).unwrap();
+                }
+                ctx.sub(acc, *b).unwrap()
             })
             .collect()
     };
